@@ -459,7 +459,10 @@ func Reference(d *Decl) *Ref {
 		r.TransDeps[p.ID] = td
 	}
 	for _, p := range order {
-		if p.Async {
+		// Async only has a meaning for providers that are called; wrapping a Struct expansion in
+		// Async is accepted by the type system, but a field read is not a call (the documentation
+		// says field access is always synchronous), so it does not make the injector asynchronous.
+		if p.Async && p.Kind == Func {
 			r.NeededAsync = true
 		}
 		if p.Fallible {
